@@ -250,6 +250,12 @@ def run(run):
                 run.undecided("R2", "%s|returns-flag" % name, "no `return Ok(<flag>)` found", site)
             else:
                 run.check("R2", "%s|returns-flag" % name, all(f == (want, True) for f in flags), "%s must report the segment's %s; found %s" % (name, want, flags), site)
+        # a query about ONE address looks at the segment containing that address; read(addr, size) demands that the whole range
+        # [addr, addr + size) lies inside one segment, so deciding the flag through read() fails near the end of a segment
+        for qname in ("is_address_writeable",):
+            q = F.fn(qname, adt="RuntimeMemoryImage")
+            ranged = [x for x in T.walk_deep(F, q["body"], 1) if T.is_call(x, ("read", "is_interval_writeable", "is_interval_readable")) and "RuntimeMemoryImage" in (x.get("f") or "") + (x.get("r") or "")]
+            run.check("R2", "%s|single-address-query" % qname, not ranged, "%s must decide on the segment that contains the address itself; it goes through %s, which requires a whole multi-byte range inside one segment" % (qname, [x["n"] for x in ranged]), F.loc(q["body"]))
         fn = F.fn("get_ro_data_pointer_at_address", adt="RuntimeMemoryImage")
         site = F.loc(fn["body"])
         from .lib import peval as PE
